@@ -206,7 +206,7 @@ def build_harness(name, variant, extra_sources=(), ldflags=(), cflags=()):
         for i in incs:
             flags += ["-I", i]
         tmp = out + ".tmp%d" % os.getpid()
-        cmd = ["gcc"] + flags + srcs + [lib, "-o", tmp, "-lpthread", "-lrt", "-ldl", "-lm"] + list(ldflags)
+        cmd = ["gcc"] + flags + srcs + [lib, "-o", tmp, "-rdynamic", "-lpthread", "-lrt", "-ldl", "-lm"] + list(ldflags)
         r = subprocess.run(cmd, stdout=subprocess.PIPE, stderr=subprocess.STDOUT)
         if r.returncode != 0:
             raise BuildError("harness build failed (%s/%s):\n%s" %
